@@ -309,7 +309,8 @@ CHECKS = {
              "callbacks for the trials this worker failed, retry chains through RetryFailedTrialCallback, crash of a sweeper "
              "anywhere) and TLC checks FailedByAtMostOne, CallbackAtMostOnce, AtMostOneRetryPerFailure, RetriesBounded, "
              "HistoryCorrect and Untouched for 2 workers over every heartbeat/state pattern; the SQLite variant must fail "
-             "(K1). Real executions on RDBStorage(SQLite) with heartbeats: trials in every state/heartbeat pattern "
+             "(K1); HeartbeatClock.tla models the database clock, the heartbeat thread and older-than-grace (a worker beating in "
+             "time is never failed; the >= variant must fail). Real executions on RDBStorage(SQLite) with heartbeats: trials in every state/heartbeat pattern "
              "(heartbeat rows written directly, no sleeping), 1-2 workers sweeping in turn through fail_stale_trials and "
              "through optimize while queued retries are taken and die again, and two workers sweeping concurrently "
              "interleaved per SQL statement with one possibly dying mid-sweep (its connection closed, as the OS would); "
